@@ -956,8 +956,11 @@ def release_validation(ctx, RR, o):
                    'release({}) must release nothing, only release(None) releases everything', node=n_, path=res.path_lines(n_.id, res.at(n_.id)[0]))
     else:
         o.witness('release-all-only-for-None')
+    # the names the loops over the released entries give to the amount (`for name, amount in resources.items()`), whatever they are called
+    AMT = {n_.ast.target.elts[1].id for n_ in g.nodes.values() if n_.kind == 'for' and isinstance(n_.ast.target, ast.Tuple) and len(n_.ast.target.elts) == 2
+           and all(isinstance(e_, ast.Name) for e_ in n_.ast.target.elts) and isinstance(n_.ast.iter, ast.Call) and call_attr(n_.ast.iter) == 'items'} or {'amount'}
     o.count()
-    neg = guard(lambda L, op: op == '<' and L.is_({'amount': 1}))
+    neg = guard(lambda L, op: op == '<' and any(L.is_({a_: 1}) for a_ in AMT))
     if not neg:
         o.fail(P, 'ReservedResources.release', 'if amount < 0: raise ValueError', 'releasing a negative amount is not rejected', file=RR.mod.path, line=fn.lineno)
     else:
@@ -967,7 +970,7 @@ def release_validation(ctx, RR, o):
     def over(L, op):
         keys = list(L.terms)
         held = [k for k in keys if k.startswith('self._reserved_resources[')]
-        return op == '<' and len(keys) == 2 and len(held) == 1 and L.terms[held[0]] == 1 and L.terms.get('amount') == -1 and L.const == 0
+        return op == '<' and len(keys) == 2 and len(held) == 1 and L.terms[held[0]] == 1 and any(L.terms.get(a_) == -1 for a_ in AMT) and L.const == 0
     ov = guard(over)
     if not ov:
         o.fail(P, 'ReservedResources.release', 'if self._reserved_resources[name] < amount: raise ValueError', 'releasing more than is reserved is not rejected (reserved - amount < 0 must raise)',
@@ -985,9 +988,9 @@ def release_validation(ctx, RR, o):
                     if cn.frame is g.top and cn.id != n.id:
                         r = cmp_norm(N, cn.ast, FrameEnv(cn.frame), lab == 'T')
                         lits_on_paths.add(f'{r[0].key()} {r[1]} 0')
-        allowed = {'amount != 0', '-amount <= 0', 'amount <= 0', '-amount < 0'}      # amount != 0 ; not(amount < 0) ...
+        allowed = {t_.replace('amount', a_) for a_ in AMT for t_ in ('amount != 0', '-amount <= 0', 'amount <= 0', '-amount < 0')}      # amount != 0 ; not(amount < 0) ...
         o.count()
-        extra = sorted(l for l in lits_on_paths if l not in allowed and 'amount' in l)
+        extra = sorted(l for l in lits_on_paths if l not in allowed and any(a_ in l for a_ in AMT))
         if extra:
             o.fail(P, 'ReservedResources.release', None, f'the reserved-amount check is skipped under an extra condition on the amount ({extra}); only amount == 0 may skip it', node=n)
         else:
